@@ -98,6 +98,8 @@ def c17(faults, namelens):
                 reach = ["rcreate", "rerror"] if (u or c in (0, 1, 4)) else ["rerror"]
                 runs.append({"harness": "vxH17Create", "args": [B(u), str(c), str(faults), str(nl)], "files": F("c17_mutate"), "reach": reach,
                              "bounds": f"H17.create {cls[c]}, dotu={B(u)}: perm any 32-bit value of that class, mode any 8-bit value, name {nl} symbolic byte(s) without '/' (may hit an existing file/dir), <= {faults} injected failure(s) with symbolic errno 1..4095"})
+        runs.append({"harness": "vxH17Rename", "args": [B(u)], "files": F("c17_mutate"), "reach": ["renamed", "refused"],
+                     "bounds": f"wstat used only to rename a file or a directory onto a free name, a file, an empty directory or a non-empty directory; outcome per rename(2); dotu={B(u)}"})
         runs.append({"harness": "vxH17Write", "args": [B(u), str(faults), "2"], "files": F("c17_mutate"), "reach": ["rwrite", "rerror"],
                      "bounds": f"H17.write, dotu={B(u)}: 2 data bytes, any offset, <= {faults} injected failure(s)"})
         runs.append({"harness": "vxH17Remove", "args": [B(u), str(faults)], "files": F("c17_mutate"), "reach": ["rremove", "rerror"],
